@@ -14,11 +14,21 @@ through `vh numfmt …`):
   * all 65536 built-in codes, their decimal ids, and non-canonical ids;
   * value wrapping (format_excel_f64 / format_excel_i64);
   * generated xlsx / xls / xlsb files with random style tables, both date systems and every
-    numeric cell encoding, read through the public API.
+    numeric cell encoding, read through the public API;
+  * xlsb: xl/styles.bin as a byte stream (tools/xlsbstyles.py, Coq XlsbStyles.v): random layouts in
+    Excel's shape (FMTS, FONTS, FILLS, BORDERS, CELLSTYLEXFS with BrtXF records of its own, CELLXFS,
+    the rest) with random framing forms, random records and tails wherever the format or the reader
+    tolerates them, colours and names holding the byte pairs E9 04 / E7 04 (the ids of
+    BrtBeginCellXFs / BrtBeginFmts); the Coq encoder's bytes must equal the Python encoder's,
+    Xlsb::read_styles on those bytes (hook verif_hooks::xlsb::styles) must equal the model, the
+    specification (the table of the BrtFmt / BrtXF records) and its own answer on the bare layout
+    of the same two tables; cells of the generated files are written as short cell records
+    (BrtShortReal / BrtShortRk) at random; malformed parts (cuts, wrong counts, flipped bytes, the
+    two opening ids sown into bodies AND as real records) model vs code.
 """
 import json, os, struct, sys
 sys.path.insert(0, os.path.dirname(os.path.dirname(os.path.abspath(__file__))))
-import vlib, biffgen_c10
+import vlib, biffgen_c10, xlsbstyles
 import xlsxgen_c10 as xlsxgen
 
 ASSUMPTIONS = [
@@ -591,6 +601,7 @@ def run_biff_files(ctx, n, tag, kind):
     rng = ctx.rng
     os.makedirs(TMP, exist_ok=True)
     descs, mlines, ilines = [], [], []
+    styles_cases = []
     for k in range(n + 1):
         customs, xfs = gen_table(rng, kind)
         customs = [(i, f if f is not None else ast_string(ctx)) for i, f in customs]
@@ -627,12 +638,21 @@ def run_biff_files(ctx, n, tag, kind):
         if kind == "xls":
             biffgen_c10.write_xls(path, customs, xfs, is_1904, cells)
         else:
-            biffgen_c10.write_xlsb(path, customs, xfs, is_1904, cells)
+            # styles.bin: a random layout of the part around the two tables; cells: short records at random
+            L = xlsbstyles.random_layout(rng, customs, xfs) if k < n else xlsbstyles.excel_layout(customs, xfs)
+            st = xlsbstyles.enc_layout(L)
+            share = rng.choice([0.0, 0.5, 1.0])
+            short_cols = [c for c in range(1, len(cells)) if rng.random() < share]
+            desc["styles"] = st.hex(); desc["short_cols"] = short_cols
+            biffgen_c10.write_xlsb(path, customs, xfs, is_1904, cells, styles=st, short_cols=short_cols)
+            styles_cases.append((lid, L, st, customs, xfs))
         mlines.append("%s\tnumfmt\tbiffs\t%s\t%s\t%s\t%s\t%s" % (
             lid, kind, ",".join("%d:%s" % (i, hx(f)) for i, f in customs) or ".",
             ",".join(str(x) for x in xfs), "1" if is_1904 else "0", ",".join(wire)))
         ilines.append("%s\tnumfmt\t%sf\t%s" % (lid, kind, path))
         descs.append(desc)
+    if styles_cases:
+        check_styles_bytes(ctx, styles_cases)
     model = ctx.run_model(mlines)
     impl = ctx.run_impl(ilines)
     for desc in descs:
@@ -650,6 +670,142 @@ def run_biff_files(ctx, n, tag, kind):
         except OSError:
             pass
 
+# ------------------------------------------------------------------ xlsb: styles.bin as bytes
+def check_styles_bytes(ctx, cases):
+    """cases: [(id, layout, bytes, customs, xfs)].  Coq encoder = Python encoder; the layout is legal;
+    read_styles(code) = read_styles(model) = the table of the two collections (Coq spec) = the code's
+    answer on the bare layout of the same tables"""
+    elines, ilines, blines = [], [], []
+    for lid, L, st, customs, xfs in cases:
+        elines.append("%s\txlsbstyles\tenc\t%s" % (lid, xlsbstyles.layout_text(L)))
+        ilines.append("%s\txlsbstyles\tread\t%s" % (lid, st.hex() or "-"))
+        bare = xlsbstyles.enc_layout(xlsbstyles.bare_layout(customs, xfs))
+        blines.append("%s\txlsbstyles\tread\t%s" % (lid, bare.hex()))
+    enc = ctx.run_model(elines)
+    impl = ctx.run_impl(ilines) if ctx.hooks else {}
+    bare = ctx.run_impl(blines) if ctx.hooks else {}
+    for i, (lid, L, st, customs, xfs) in enumerate(cases):
+        ctx.traces += 1
+        ctx.count("xlsb-styles:layout")
+        others = L["pre"] + L["mid"] + [r for it in (L["fmts"]["items"] if L["fmts"] else []) + L["xfs"]["items"] for r in it["junk"]]
+        if any(p in r["body"] for r in others for p in (b"\xE9\x04", b"\xE7\x04")):
+            ctx.count("xlsb-styles:colliding-bytes-in-other-records")
+        e = enc.get(lid, "").split("#")
+        if len(e) != 4:
+            ctx.disagreements.append({"function": "xlsbstyles enc", "case": elines[i][:3000], "impl": "-", "model": "#".join(e)[:300]})
+            continue
+        ehex, wf, spec, mread = e[0], e[1], e[2][5:], e[3][5:]
+        if ehex != st.hex():
+            ctx.disagreements.append({"function": "encoder (Coq encode_styles vs tools/xlsbstyles.py)",
+                                      "case": elines[i][:3000], "impl": st.hex()[:400], "model": ehex[:400]})
+            continue
+        if wf != "1":
+            ctx.disagreements.append({"function": "generator produced a styles layout the Coq side calls illegal",
+                                      "case": elines[i][:3000], "impl": "wf=1", "model": "wf=" + wf})
+            continue
+        ctx.nontrivial("styles:" + elines[i][-300:])
+        if not ctx.hooks:
+            continue
+        a = impl.get(lid)
+        if a != mread:
+            ctx.disagreements.append({"function": "Xlsb::read_styles (bytes of xl/styles.bin)", "case": ilines[i][:6000],
+                                      "impl": a, "model": mread})
+        if a != spec or bare.get(lid) != spec:
+            ctx.violations.append({"case": ilines[i][:6000], "expected": spec, "actual": a, "model": mread,
+                                   "what": "xlsb style table read from styles.bin is not the table of its BrtFmt / BrtXF "
+                                           "records (bare layout of the same tables reads %s)" % bare.get(lid)})
+
+def run_styles_malformed(ctx, n, tag):
+    """one fault in a legal styles.bin: model vs code on the outcome (table or error)"""
+    if not ctx.hooks:
+        ctx.notes.append("hooks unavailable: the byte-level styles.bin comparison did not run")
+        return
+    rng = ctx.rng
+    lines, labs = [], []
+    lines.append("%sn\txlsbstyles\tread\tnone" % tag); labs.append("absent")
+    lines.append("%se\txlsbstyles\tread\t-" % tag); labs.append("empty")
+    for k in range(n):
+        customs, xfs = gen_table(rng, "xlsb")
+        customs = [(i, f if f is not None else "yyyy") for i, f in customs]
+        customs = [(i, f) for i, f in customs if f and len(f) < 250]
+        L = xlsbstyles.random_layout(rng, customs, xfs)
+        kind = rng.choice(["trunc", "flip", "count+", "count-", "opener-in-mid", "fmt-short", "xf-short", "second-fmts",
+                           "no-cellxfs", "opener-pair-body", "wide-len"])
+        if kind == "count+":
+            c = rng.choice([L["xfs"]] + ([L["fmts"]] if L["fmts"] else []))
+            st = xlsbstyles.enc_layout(L)
+            good = struct.pack("<I", len(c["items"])); bad = struct.pack("<I", len(c["items"]) + rng.choice([1, 2, 0x7FFFFFFF]))
+            rid = xlsbstyles.BRT_BEGIN_CELLXFS if c is L["xfs"] else xlsbstyles.BRT_BEGIN_FMTS
+            old = xlsbstyles.frame(c["fr"], rid, good + c["tail"])
+            st = st.replace(old, xlsbstyles.frame(c["fr"], rid, bad + c["tail"]), 1)
+        elif kind == "count-":
+            c = rng.choice([L["xfs"]] + ([L["fmts"]] if L["fmts"] else []))
+            st = xlsbstyles.enc_layout(L)
+            good = struct.pack("<I", len(c["items"])); bad = struct.pack("<I", max(0, len(c["items"]) - 1))
+            rid = xlsbstyles.BRT_BEGIN_CELLXFS if c is L["xfs"] else xlsbstyles.BRT_BEGIN_FMTS
+            st = st.replace(xlsbstyles.frame(c["fr"], rid, good + c["tail"]), xlsbstyles.frame(c["fr"], rid, bad + c["tail"]), 1)
+        elif kind == "opener-in-mid":
+            # a real (empty or counted) BrtBeginCellXFs / BrtBeginFmts record among the other records
+            rid = rng.choice([xlsbstyles.BRT_BEGIN_CELLXFS, xlsbstyles.BRT_BEGIN_FMTS])
+            body = rng.choice([b"", struct.pack("<I", 0), struct.pack("<I", 1), bytes(3)])
+            part = rng.choice(["pre", "mid"])
+            L[part].insert(rng.randrange(len(L[part]) + 1), xlsbstyles.raw(rid, body))
+            st = xlsbstyles.enc_layout(L)
+        elif kind == "fmt-short" and L["fmts"] and L["fmts"]["items"]:
+            it = rng.choice(L["fmts"]["items"])
+            good = xlsbstyles.frame(it["fr"], xlsbstyles.BRT_FMT, struct.pack("<H", it["id"]) + xlsbstyles.wide(it["code"]) + it["tail"])
+            body = (struct.pack("<H", it["id"]) + xlsbstyles.wide(it["code"]))[:rng.randrange(0, 8)]
+            st = xlsbstyles.enc_layout(L).replace(good, xlsbstyles.frame((False, 0), xlsbstyles.BRT_FMT, body), 1)
+        elif kind == "xf-short" and L["xfs"]["items"]:
+            it = rng.choice(L["xfs"]["items"])
+            good = xlsbstyles.frame(it["fr"], xlsbstyles.BRT_XF, struct.pack("<HH", it["parent"], it["ifmt"]) + it["tail"])
+            st = xlsbstyles.enc_layout(L).replace(good, xlsbstyles.frame((False, 0), xlsbstyles.BRT_XF, bytes(rng.randrange(0, 4))), 1)
+        elif kind == "second-fmts":
+            # a second FMTS collection (not in the grammar): the maps accumulate
+            body = struct.pack("<I", 1)
+            extra = [xlsbstyles.raw(xlsbstyles.BRT_BEGIN_FMTS, body),
+                     xlsbstyles.raw(xlsbstyles.BRT_FMT, struct.pack("<H", rng.choice([164, 165, 200])) + xlsbstyles.wide(rng.choice(["yyyy", "0.0", "[h]"])))]
+            L["mid"] = L["mid"] + extra
+            st = xlsbstyles.enc_layout(L)
+        elif kind == "no-cellxfs":
+            st = xlsbstyles.enc_layout(L)
+            X = L["xfs"]
+            cut = st.find(xlsbstyles.frame(X["fr"], xlsbstyles.BRT_BEGIN_CELLXFS, struct.pack("<I", len(X["items"])) + X["tail"]))
+            st = st[:cut]
+        elif kind == "opener-pair-body":
+            # legal: the two byte pairs at every offset of a font body
+            body = bytearray(xlsbstyles.font_body(xlsbstyles.color_theme(1)))
+            o = rng.randrange(0, len(body) - 1)
+            body[o], body[o + 1] = xlsbstyles.PAIRS[rng.randrange(2)]
+            L["mid"].insert(rng.randrange(len(L["mid"]) + 1), xlsbstyles.raw(0x2B, bytes(body)))
+            st = xlsbstyles.enc_layout(L)
+        elif kind == "wide-len":
+            st = bytearray(xlsbstyles.enc_layout(L))
+            o = rng.randrange(len(st))
+            st[o] |= 0x80
+            st = bytes(st)
+        elif kind == "flip":
+            st = bytearray(xlsbstyles.enc_layout(L))
+            for _ in range(rng.randrange(1, 4)):
+                st[rng.randrange(len(st))] = rng.getrandbits(8)
+            st = bytes(st)
+        else:
+            st = xlsbstyles.enc_layout(L)
+            st = st[:rng.randrange(len(st) + 1)]
+            kind = "trunc"
+        lines.append("%s%d\txlsbstyles\tread\t%s" % (tag, k, st.hex() or "-")); labs.append(kind)
+    impl, model = ctx.run_both(lines)
+    for line, lab in zip(lines, labs):
+        lid = line.split("\t", 1)[0]
+        a, m = impl.get(lid), model.get(lid)
+        ctx.traces += 1
+        ctx.count("xlsb-styles-malformed:" + lab)
+        ctx.count("xlsb-styles-outcome:" + ("ok" if (a or "").startswith("ok") else a or "none"))
+        ctx.nontrivial("stylesmal:" + line[-200:])
+        if a != m:
+            ctx.disagreements.append({"function": "Xlsb::read_styles on a malformed part (%s)" % lab, "case": line[:6000],
+                                      "impl": a, "model": m})
+
 # ------------------------------------------------------------------ entry points
 def run(ctx):
     run_strings(ctx, ctx.scale(10000, 100000), "s")
@@ -662,6 +818,7 @@ def run(ctx):
     run_xlsx_raw(ctx, ctx.scale(100, 800), "r")
     run_biff_files(ctx, ctx.scale(250, 2000), "b", "xls")
     run_biff_files(ctx, ctx.scale(250, 2000), "p", "xlsb")
+    run_styles_malformed(ctx, ctx.scale(600, 5000), "q")
 
 def search(ctx):
     run_ast(ctx, ctx.scale(60000, 300000), "A")
@@ -672,6 +829,7 @@ def search(ctx):
     run_xlsx_files(ctx, ctx.scale(600, 3000), "X")
     run_biff_files(ctx, ctx.scale(600, 3000), "B", "xls")
     run_biff_files(ctx, ctx.scale(600, 3000), "P", "xlsb")
+    run_styles_malformed(ctx, ctx.scale(1500, 6000), "Q")
 
 def replay(ctx, rep):
     case = rep.get("case") or ""
@@ -695,7 +853,12 @@ def replay(ctx, rep):
         path = os.path.join(TMP, "replay." + kind)
         cells = [tuple(c) for c in desc["cells"]]
         customs = [tuple(c) for c in desc["customs"]]
-        (biffgen_c10.write_xls if kind == "xls" else biffgen_c10.write_xlsb)(path, customs, desc["xfs"], desc["is_1904"], cells)
+        if kind == "xls":
+            biffgen_c10.write_xls(path, customs, desc["xfs"], desc["is_1904"], cells)
+        else:
+            biffgen_c10.write_xlsb(path, customs, desc["xfs"], desc["is_1904"], cells,
+                                   styles=bytes.fromhex(desc["styles"]) if desc.get("styles") else None,
+                                   short_cols=desc.get("short_cols", ()))
         cmd = kind + "f"
     else:
         print("cannot replay", kind); return 2
